@@ -39,9 +39,15 @@ impl AtomicCounter {
     /// Flushes the current counter value, returning the delta of the counter value, and the number of updates, since
     /// the last flush.
     pub fn flush(&self) -> (u64, u64) {
+        #[cfg(metrics_verif)]
+        metrics::verif::point("agg.cflush.load_current");
         let current = self.current.load(Acquire);
+        #[cfg(metrics_verif)]
+        metrics::verif::point("agg.cflush.swap_last");
         let last = self.last.swap(current, AcqRel);
         let delta = current.wrapping_sub(last);
+        #[cfg(metrics_verif)]
+        metrics::verif::point("agg.cflush.swap_updates");
         let updates = self.updates.swap(0, AcqRel);
 
         (delta, updates)
@@ -50,8 +56,14 @@ impl AtomicCounter {
 
 impl CounterFn for AtomicCounter {
     fn increment(&self, value: u64) {
+        #[cfg(metrics_verif)]
+        metrics::verif::point("agg.cinc.store_abs");
         self.is_absolute.store(false, Release);
+        #[cfg(metrics_verif)]
+        metrics::verif::point("agg.cinc.add_current");
         self.current.fetch_add(value, Relaxed);
+        #[cfg(metrics_verif)]
+        metrics::verif::point("agg.cinc.add_updates");
         self.updates.fetch_add(1, Relaxed);
     }
 
@@ -60,11 +72,19 @@ impl CounterFn for AtomicCounter {
         // consistent starting point when flushing. This ensures that we only start flushing deltas once we've gotten
         // two consecutive absolute values, since otherwise we might be calculating a delta between a `last` of 0 and a
         // very large `current` value.
+        #[cfg(metrics_verif)]
+        metrics::verif::point("agg.cabs.swap_abs");
         if !self.is_absolute.swap(true, Release) {
+            #[cfg(metrics_verif)]
+            metrics::verif::point("agg.cabs.store_last");
             self.last.store(value, Release);
         }
 
+        #[cfg(metrics_verif)]
+        metrics::verif::point("agg.cabs.store_current");
         self.current.store(value, Release);
+        #[cfg(metrics_verif)]
+        metrics::verif::point("agg.cabs.add_updates");
         self.updates.fetch_add(1, Relaxed);
     }
 }
@@ -82,7 +102,11 @@ impl AtomicGauge {
 
     /// Flushes the current gauge value and the number of updates since the last flush.
     pub fn flush(&self) -> (f64, u64) {
+        #[cfg(metrics_verif)]
+        metrics::verif::point("agg.gflush.load");
         let current = f64::from_bits(self.inner.load(Acquire));
+        #[cfg(metrics_verif)]
+        metrics::verif::point("agg.gflush.swap_updates");
         let updates = self.updates.swap(0, AcqRel);
 
         (current, updates)
@@ -111,7 +135,11 @@ impl GaugeFn for AtomicGauge {
     }
 
     fn set(&self, value: f64) {
+        #[cfg(metrics_verif)]
+        metrics::verif::point("agg.gset.store");
         self.inner.store(value.to_bits(), Release);
+        #[cfg(metrics_verif)]
+        metrics::verif::point("agg.gset.add_updates");
         self.updates.fetch_add(1, Relaxed);
     }
 }
